@@ -46,14 +46,21 @@ BASES = {
     "WriteProperty": H(NP_REQ + "0005030F" + "0C00800001" + "1955" + "3E" + "4440000000" + "3F"),
     "ReadPropertyMultiple": H(NP_REQ + "0005040E" + "0C02000001" + "1E" + "094D" + "091C" + "1F"),
     "SubscribeCOV": H(NP_REQ + "00050505" + "0901" + "1C00800001" + "2900" + "3905"),
-    "SubscribeCOV-confirmed": H(NP_REQ + "00050805" + "0902" + "1C00400001" + "2901" + "3903"),
-    "AtomicReadFile-unsupported": H(NP_REQ + "00050606" + "C402800001" + "0E" + "3100" + "210A" + "0F"),
+    "SubscribeCOV-confirmed": H(NP_REQ + "00050805" + "0902" + "1C01400001" + "2901" + "3903"),
+    "AtomicReadFile": H(NP_REQ + "00050606" + "C402800001" + "0E" + "3100" + "210A" + "0F"),
+    "AtomicWriteFile": H(NP_REQ + "00050C07" + "C402800001" + "0E" + "3100" + "63616263" + "0F"),
     "unregistered-service": H(NP_REQ + "00050755" + "0901"),
     "DeviceCommunicationControl": H(NP_REQ + "00050A11" + "1900"),
     "DeviceCommunicationControl-full": H(NP_REQ + "00050B11" + "0901" + "1900" + "2A0061"),
     "ReadProperty-routed-source": H("010C" + "0007" + "01" + "21" + "0005090C" + "0C02000001" + "194D"),
     "WhoIs": H(NP_UNC + "1008" + "0900" + "1903"),
     "IAm": H(NP_UNC + "1000" + "C402000009" + "2201E0" + "9103" + "210F"),
+    "IHave": H(NP_UNC + "1001" + "C402000009" + "C400800001" + "7400617631"),
+    "UnconfirmedPrivateTransfer": H(NP_UNC + "1004" + "0903" + "1901"),
+    "UnconfirmedTextMessage": H(NP_UNC + "1005" + "0C02000009" + "2900" + "3B006869"),
+    "TimeSynchronization": H(NP_UNC + "1006" + "A47E091A06" + "B40C000000"),
+    "WhoHas": H(NP_UNC + "1007" + "3C00617631"),
+    "UTCTimeSynchronization": H(NP_UNC + "1009" + "A47E091A06" + "B40C000000"),
     "UnconfirmedCOVNotification": H(NP_UNC + "1002" + "0901" + "1C02000009" + "2C00800001" + "3900" + "4E" + "0955" + "2E" + "4400000000" + "2F" + "4F"),
 }
 VALID = H(NP_REQ + "0005630C" + "0C02000001" + "194D")                 # the valid request of the histories, invoke 99
@@ -287,7 +294,7 @@ DIALOGUES = {
     "two-segment-response-in-progress": (H(NP_REQ + "0200C80C" + "0C00800001" + "191C"), H(NP_UNC + "40C80002")),
     # SubscribeCOV with confirmed notifications: the device sends a ConfirmedCOVNotification (its own invoke ID 1) and
     # waits for the tester's SimpleAck
-    "confirmed-notification-outstanding": (H(NP_REQ + "0005C805" + "0902" + "1C00400001" + "2901" + "3903"), H(NP_UNC + "200101")),
+    "confirmed-notification-outstanding": (H(NP_REQ + "0005C805" + "0902" + "1C01400001" + "2901" + "3903"), H(NP_UNC + "200101")),
 }
 
 
@@ -402,6 +409,60 @@ def nb_shard(item, deadline):
     return acc
 
 
+# Pairs: every ordered pair of valid frames (one per service, confirmed and unconfirmed) on one device.  The reply to the
+# second must be the one the same frame gets on a fresh device (differential oracle: no hand-written expectation), unless
+# the first is one of the few frames that rightfully change what the second reads.
+def reply_apdus(sent, invoke, level):
+    return [n["payload"] for (dst, n, a, raw) in sent
+            if a is not None and n is not None and a["invoke"] == invoke and a["type"] in (2, 3, 5, 6, 7)
+            and not (a["type"] == 7 and not a["srv"]) and to_tester(dst, level)]
+
+
+def pair_case(level, name_a, name_b):
+    fa, fb = wrap(level, BASES[name_a]), wrap(level, BASES[name_b])
+    cb = devref.classify(fb, level)
+    problems = []
+    alone = Device(level)
+    start = len(alone.sent())
+    alone.inject(fb)
+    want = reply_apdus(replies_of(alone, level, start), cb.get("invoke"), level) if cb["judged"] else None
+    dev, probs, obs = run_frames(level, [fa, fb])
+    problems += probs
+    if cb["judged"] and devref.dcc_effect(fa, level)[0] == "none":
+        got = reply_apdus(replies_of(dev, level, 0), cb["invoke"], level)
+        same_invoke = devref.classify(fa, level).get("invoke") == cb["invoke"]
+        if same_invoke:
+            got = got[-len(want):] if want else got
+        # WriteProperty / AtomicWriteFile change what a later read of the same thing returns: compare the kind of reply only
+        if name_a in ("WriteProperty", "AtomicWriteFile", "SubscribeCOV", "SubscribeCOV-confirmed"):
+            if [x[:1] for x in got] != [x[:1] for x in want]:
+                problems.append(("reply-kind-depends-on-the-valid-frame-before", {"alone": [x.hex() for x in want], "after": [x.hex() for x in got]}))
+        elif got != want:
+            problems.append(("reply-depends-on-the-valid-frame-before", {"alone": [x.hex() for x in want], "after": [x.hex() for x in got]}))
+    return dev, problems, obs
+
+
+def pair_shard(item, deadline):
+    acc = Acc()
+    for (level, a, b) in item:
+        if time.time() > deadline:
+            acc.cap("deadline inside the pair sweep")
+            break
+        dev, problems, obs = pair_case(level, a, b)
+        acc.case((level, "pair", a, b))
+        acc.traces += 2
+        acc.transitions += 5
+        acc.state((level, "pair", tuple(obs), bool(problems)))
+        acc.outcome("pair:%s" % ("ok" if not problems else problems[0][0]))
+        for prob, detail in problems:
+            acc.fail(root_cause(dev, "pair:" + prob), {"problem": prob, "detail": detail, "level": level, "first": a, "then": b, "device_sent": obs},
+                     {"pair": True, "level": level, "first": a, "then": b})
+    return acc
+
+
+FOREIGN_LEVELS = ("ipf:silent", "ipf:acked", "ipf:nak")
+
+
 def all_mutations(tier):
     out = []
     for level in ("lan", "ip"):
@@ -477,6 +538,22 @@ def run(tier, seed, deadline):
             nb.append((level, o, False, "successor"))
     acc.info["neighbour cases"] = len(nb)
     run_shards(nb_shard, chunks(nb, 8), deadline, into=acc)
+    # pairs of valid frames
+    pairs = [(level, a, b) for level in ("lan", "ip") for a in BASES for b in BASES]
+    acc.info["pairs of valid frames"] = len(pairs)
+    run_shards(pair_shard, chunks(pairs, 16), deadline, into=acc)
+    # the device as a foreign device (BIPForeign below the network layer) whose registration is unanswered, acknowledged
+    # or refused: every valid frame alone, and the garbage representatives of the B/IP level with the valid request
+    fitems = []
+    for flevel in FOREIGN_LEVELS:
+        for name, npdu in BASES.items():
+            fitems.append((flevel, [wrap("ip", npdu)], True))
+        for g in pool.get("ip", [])[:30]:
+            for frames in ([g, wrap("ip", VALID)], [wrap("ip", VALID), g]):
+                for settle in (True, "deferred"):
+                    fitems.append((flevel, frames, settle))
+    acc.info["foreign-device histories"] = len(fitems)
+    run_shards(hist_shard, chunks(fitems, 32), deadline, into=acc)
     acc.sample({"level": "lan", "base": "ReadProperty", "frame": BASES["ReadProperty"].hex(), "device_sent": a[2]})
     if pool.get("lan"):
         g = pool["lan"][0]
@@ -486,6 +563,9 @@ def run(tier, seed, deadline):
 
 def replay(case):
     vclock.install()
+    if case.get("pair"):
+        dev, problems, obs = pair_case(case["level"], case["first"], case["then"])
+        return not problems, "level=%s first=%s then=%s\ndevice sent=%r\nproblems=%r" % (case["level"], case["first"], case["then"], obs, problems)
     if case.get("neighbour"):
         o = case["opening"]
         o = o if isinstance(o, bytes) else bytes.fromhex(o["hex"])
